@@ -285,8 +285,19 @@ func (r *Rec) Finish(t TB) {
 		cov["samples"] = []interface{}{fmt.Sprintf("%+v", r.samples)}
 		b, _ = json.MarshalIndent(ev, "", " ")
 	}
+	part := os.Getenv("VERIF_PART")
+	tag := r.ID
+	if part != "" {
+		tag = r.ID + ".part_" + part
+	}
 	os.MkdirAll(filepath.Join(OutDir(), "evidence"), 0o755)
-	ioutil.WriteFile(filepath.Join(OutDir(), "evidence", r.ID+".json"), b, 0o644)
+	os.MkdirAll(filepath.Join(OutDir(), "build", "verdict"), 0o755)
+	if part == "" {
+		ioutil.WriteFile(filepath.Join(OutDir(), "evidence", r.ID+".json"), b, 0o644)
+	} else {
+		// a further part of the check (another package): the runner merges it into evidence/<ID>.json
+		ioutil.WriteFile(filepath.Join(OutDir(), "build", "verdict", tag+".evidence.json"), b, 0o644)
+	}
 
 	verdict := "held"
 	if len(r.violOrder) > 0 {
@@ -298,7 +309,7 @@ func (r *Rec) Finish(t TB) {
 		"known_observed": knownTotal, "inconclusive": r.incon, "evaluations": r.evals, "distinct_nontrivial": len(r.distinct)}
 	vb, _ := json.MarshalIndent(vd, "", " ")
 	os.MkdirAll(filepath.Join(OutDir(), "build", "verdict"), 0o755)
-	ioutil.WriteFile(filepath.Join(OutDir(), "build", "verdict", r.ID+".json"), vb, 0o644)
+	ioutil.WriteFile(filepath.Join(OutDir(), "build", "verdict", tag+".json"), vb, 0o644)
 
 	fmt.Printf("VERDICT property=%s %s evaluations=%d distinct_nontrivial=%d violations=%d known_observed=%d\n",
 		r.ID, verdict, r.evals, len(r.distinct), len(r.violOrder), knownTotal)
@@ -338,6 +349,9 @@ type PreLog struct {
 func NewPreLog(id string) *PreLog {
 	dir := filepath.Join(OutDir(), "build", "prelog")
 	os.MkdirAll(dir, 0o755)
+	if part := os.Getenv("VERIF_PART"); part != "" {
+		id = id + ".part_" + part
+	}
 	p := filepath.Join(dir, id+".log")
 	f, _ := os.Create(p)
 	return &PreLog{f: f, Path: p}
